@@ -466,3 +466,50 @@ def r9(cx):
                              "`if it.%s(..)?` and `it.valid()` disagree, and a merge that re-positions children by the returned bool keeps an exhausted "
                              "child or drops a live one" % (b.id, short(c), ", ".join(sorted(V)), mname))
     cx.floor("Ok(bool) returns of LSMIterator positioning methods", n, 49)
+
+
+@rule("C09", "C09.R10", "an inverted user range is an empty cursor: a table window [first, last) computed from two bounds is never sliced unguarded")
+def r10(cx):
+    """`find_first_overlapping_table(range)` and `find_last_overlapping_table(range)` are two independent binary searches;
+    for a range whose lower bound lies above its upper bound the first index exceeds the second, and `&tables[first..last]`
+    panics.  Where both bounds of the range come from ONE key (point lookup) the window cannot invert; where the range is
+    the caller's (cursor construction) the slice must be taken with a guard (`first <= last` test, `get(first..last)`)."""
+    f = cx.f
+    n = 0
+    for b in f.scan_bodies():
+        if "::tests::" in b.id or "test" in b.file:
+            continue
+        fo = {c.primary.split("::")[-1]: c for c in b.calls if c.bb in b.live and c.primary.split("::")[-1] in ("find_first_overlapping_table", "find_last_overlapping_table")}
+        if len(fo) < 2:
+            continue
+        # does the range come from one key only?  (user_range_to_internal_range(Included(k), Included(k)))
+        single = False
+        o = origin_of_operand(b, fo["find_first_overlapping_table"].args[1], through_calls=False)
+        for c in o.calls:
+            if c.primary.split("::")[-1] == "user_range_to_internal_range" and len(c.args) == 2:
+                ps = [origin_of_operand(b, a, through_calls="all").params for a in c.args]
+                single = bool(ps[0]) and ps[0] == ps[1] and len(ps[0]) == 1
+        for c in b.calls:
+            if c.bb not in b.live or c.primary.split("::")[-1] != "index" or "Range<usize>" not in (c.callee.get("a") or ""):
+                continue
+            ro = origin_of_operand(b, c.args[1], through_calls="all")
+            if not (fo["find_first_overlapping_table"] in ro.calls and fo["find_last_overlapping_table"] in ro.calls):
+                continue
+            n += 1
+            # clamped: `last.max(first)` / `first.min(last)`
+            guarded = False
+            for mc in ro.calls:
+                if mc.primary.split("::")[-1] in ("max", "min") and len(mc.args) == 2:
+                    s = [origin_of_operand(b, a, through_calls="all").calls for a in mc.args]
+                    if any(fo["find_first_overlapping_table"] in x for x in s) and any(fo["find_last_overlapping_table"] in x for x in s):
+                        guarded = True
+            for cm in comparisons(b):
+                if cm.condition_to_reach(c.bb) is None:
+                    continue
+                s = [origin_of_operand(b, op, through_calls=False).calls for op in (cm.lhs, cm.rhs)]
+                if any(fo["find_first_overlapping_table"] in x for x in s) and any(fo["find_last_overlapping_table"] in x for x in s):
+                    guarded = True
+            cx.check(single or guarded, "`%s`: the table window is sliced only when it cannot be inverted" % b.id, "table-window-unguarded|%s" % b.name, c.where(),
+                     "`%s` slices `tables[first..last]` with both indexes found by independent searches over the CALLER's range: for a range whose start lies above its end "
+                     "(tx.range(\"m\", \"c\")) first > last and the slice panics instead of the cursor being empty" % b.id)
+    cx.floor("table-window computations (first/last overlapping table)", n, 1)
